@@ -125,6 +125,13 @@ func c13Program(tp c13Type, n int, idx []string, thorough bool) string {
 	case "bytes":
 		sb.WriteString("for k in [b'', b'a', b'ab', b'bc', 97, 0, 255]:\n    _res.append((6, 6, 0, 0, (t(lambda: k in x), t(lambda: k not in x))))\n")
 	}
+	if !tp.rng {
+		// in-place operators on slices and on sequences built from an iterator: every other reference keeps its value
+		conv := map[string]string{"list": "list", "tuple": "tuple", "str": "''.join", "ustr": "''.join", "bytes": "bytes"}[tp.name]
+		sb.WriteString("y = mk()\ny0 = mk()\na = y[:2]\nb = y[:2]\nc = y[1:3]\nd = y[:]\na += y[:1]\nb += y[1:2]\nc *= 2\nd += y\n")
+		sb.WriteString("e = " + conv + "(iter(y))\nf = e\ng = e\nf += y[:1]\ng += y[1:2]\nh = y[:1]\nh += y[:1]\nh2 = h\nh += y[:1]\nh2 += y[1:2]\n")
+		sb.WriteString("_res.append((6, 13, 0, 0, (list(y) == list(y0), a, b, c, d, e, f, g, h, h2)))\n")
+	}
 	if tp.list {
 		rhs := "[[], [91], [91, 92], (91, 92, 93), [91, 92, 93, 94]]"
 		sb.WriteString("RHS = " + rhs + "\n")
@@ -311,7 +318,9 @@ func c13API(r *Run) {
 		return py.Int(v)
 	}
 	seqs := map[string]func() py.Object{
-		"list":  func() py.Object { return py.NewListFromItems([]py.Object{py.Int(10), py.Int(11), py.Int(12), py.Int(13)}) },
+		"list": func() py.Object {
+			return py.NewListFromItems([]py.Object{py.Int(10), py.Int(11), py.Int(12), py.Int(13)})
+		},
 		"tuple": func() py.Object { return py.Tuple{py.Int(10), py.Int(11), py.Int(12), py.Int(13)} },
 		"str":   func() py.Object { return py.String("aé€z") },
 		"range": func() py.Object { return &py.Range{Start: 3, Stop: 11, Step: 2, Length: 4} },
